@@ -97,6 +97,15 @@ pub fn run(thorough: bool, seed: u64, _replay: Option<String>) -> Report {
             let mut r = rng.fork();
             cases.push(structured_case(&mut r, &corpus));
         }
+        // the boundary inputs of C01 (> 1 MB with damaged edges, size boundaries, undecodable tails, stateful splits)
+        {
+            use super::DetectProp;
+            for c in super::c01::C01.directed(thorough) {
+                if c.bytes.len() > 900_000 {
+                    cases.push(c);
+                }
+            }
+        }
         for c in &cases {
             rep.evaluations += 1;
             rep.oracle_checked += 1;
